@@ -181,6 +181,7 @@ def load_known(pid):
 
 def main(fn, pid, level="model_checking"):
     """run a check body fn(check) with the exit-code discipline"""
+    chk = None
     try:
         chk = Check(pid, level)
         fn(chk)
@@ -190,6 +191,21 @@ def main(fn, pid, level="model_checking"):
     except Exception as e:  # machinery failure: never a verdict
         traceback.print_exc()
         print(f"MACHINERY-FAILURE {pid}: {type(e).__name__}: {e}")
+        if chk is not None and chk.violations:
+            # violations with replay files were already established before the machinery broke (typically BECAUSE the implementation
+            # is broken in a way a later part of the check did not expect): they stand
+            chk.info.append(f"the check aborted after these violations: {type(e).__name__}: {str(e)[:300]}")
+            chk.cov["states"] = max(chk.cov["states"], 1)
+            chk.cov["transitions"] = max(chk.cov["transitions"], 1)
+            try:
+                chk.finish(rule="aborted by a machinery failure after violations had been found; coverage figures are partial")
+            except SystemExit:
+                raise
+            except Exception:
+                for key, msg, path in chk.violations:
+                    if path:
+                        print(f"VIOLATION property={pid} replay={path}")
+                sys.exit(1)
         sys.exit(2)
 
 
